@@ -11,6 +11,7 @@ ONE check per call site so that each site that forgets to forward `origin` is id
 coordinates are bounded by ~150 in magnitude, results are compared with atol 1e-8 (rounding is ~1e-13); index-valued
 comparisons use input points that stay >= 0.1 pixel away from pixel boundaries so that rounding cannot flip an index.
 """
+import itertools
 import numpy as np
 from pyvc.bounded import bounded
 from pyvc import gens
@@ -649,13 +650,19 @@ def simulator(pixel_scales, origin, d, image, noise_seed, add_noise):
     def build(o, shift):
         img = aa.Array2D.no_mask(values=image.copy(), pixel_scales=pixel_scales, origin=o)
         psf = aa.Kernel2D.no_mask(values=[[0.0, 0.5, 0.0], [0.5, 1.0, 0.5], [0.0, 0.5, 0.0]], pixel_scales=pixel_scales)
+        out = [("input image grid", "coord", _grid_of(img.mask))]
         saved = np.random.get_state()
         try:
-            ds = aa.SimulatorImaging(exposure_time=300.0, psf=psf, background_sky_level=1.0, noise_seed=noise_seed,
-                                     add_poisson_noise_to_data=add_noise).via_image_from(image=img)
+            # every combination of the simulator's switches (16): each builds its maps on the image's frame
+            for k, (with_psf, sub_sky, in_map, norm) in enumerate(itertools.product((True, False), repeat=4)):
+                ds = aa.SimulatorImaging(exposure_time=300.0, psf=psf if with_psf else None, background_sky_level=1.0, noise_seed=noise_seed,
+                                         subtract_background_sky=sub_sky, normalize_psf=norm, add_poisson_noise_to_data=add_noise,
+                                         include_poisson_noise_in_noise_map=in_map).via_image_from(image=img)
+                out += _dataset_results(ds, "via_image_from[psf=%s, subtract_sky=%s, poisson_in_noise_map=%s, normalize_psf=%s]" % (
+                    with_psf, sub_sky, in_map, norm))
         finally:
             np.random.set_state(saved)
-        return [("input image grid", "coord", _grid_of(img.mask))] + _dataset_results(ds, "via_image_from")
+        return out
     return _two_runs(build, origin, d)
 
 
